@@ -94,75 +94,84 @@ Section HyperBatch.
     Definition load (p : hpos) : bt :=
       if Nat.ltb limit (snd p) then tget (hs_cache st) p else tget (hs_store st) p.
 
+    Definition res := (D * bt * list wr)%type.
+
+    (* what traverseThroughCache / traverseAfterCache do for a child slot (iBatch > 0) at height h';
+       rec = the walk one level down (node ... h') *)
+    Definition childf (rec : bool -> list bool -> list (key * V) -> bt -> bool -> option res)
+               (cached : bool) (h' : nat) (pre' : list bool) (lv : list (key * V)) (ct : bt) : option res :=
+      match lv with
+      | [] => option_map (fun d => (d, ct, [])) (discard ct h')
+      | (k0, v0) :: rest =>
+          if cached then
+            if Nat.eqb (h' mod 4) 0 then
+              match rec (Nat.ltb limit h') pre' lv (load (pre', h')) true with
+              | Some (d, _, w) => Some (d, set_root ct (Some (SHash d)), w)
+              | None => None
+              end
+            else rec true pre' lv ct false
+          else
+            match h' with
+            | O =>
+                match rest with
+                | [] => let d := H (YLeaf v0 (pre', O)) in
+                        Some (d, set_root ct (Some (SHash d)), [WStore (pre', O) (shortcut_at empty_batch d k0 v0)])
+                | _ => None      (* "We cannot have more than one leaf at the end of the main tree" *)
+                end
+            | _ =>
+                if Nat.eqb (h' mod 4) 0 then
+                  match rest with
+                  | [] =>
+                      match rslot ct with
+                      | Some _ =>
+                          match rec false pre' lv (load (pre', h')) true with
+                          | Some (d, _, w) => Some (d, set_root ct (Some (SHash d)), w)
+                          | None => None
+                          end
+                      | None =>
+                          let d := H (YLeaf v0 (pre', h')) in
+                          Some (d, set_root ct (Some (SHash d)), [WStore (pre', h') (shortcut_at empty_batch d k0 v0)])
+                      end
+                  | _ =>
+                      match rec false pre' lv (load (pre', h')) true with
+                      | Some (d, _, w) => Some (d, set_root ct (Some (SHash d)), w)
+                      | None => None
+                      end
+                  end
+                else rec false pre' lv ct false
+            end
+      end.
+
+    (* the inner-node step: both children, the hash, the slot, and the batch write when this is a batch root *)
+    Definition innerf (rec : bool -> list bool -> list (key * V) -> bt -> bool -> option res)
+               (cached : bool) (h' : nat) (pre : list bool) (isroot : bool) (lv : list (key * V)) (l0 r0 : bt) : option res :=
+      let '(ll, lr) := split pre lv in
+      match childf rec cached h' (pre ++ [false]) ll l0 with
+      | None => None
+      | Some (dl, l1, w1) =>
+          match childf rec cached h' (pre ++ [true]) lr r0 with
+          | None => None
+          | Some (dr, r1, w2) =>
+              let h := S h' in
+              let d := H (YNode dr dl (pre, h)) in
+              let t3 := BNode (Some (SHash d)) l1 r1 in
+              let wroot :=
+                if isroot then
+                  if cached then WCache (pre, h) t3 :: (if Nat.eqb h (limit + 4) then [WTile (pre, h) t3] else [])
+                  else [WStore (pre, h) t3]
+                else [] in
+              (* the interpreter runs the right subtree's operations before the left one's *)
+              Some (d, t3, w2 ++ w1 ++ wroot)
+          end
+      end.
+
     (* cached = the batch being walked is one of the cache levels (its root is above the limit);
        isroot = the subtree t is a whole batch (iBatch = 0) *)
-    Fixpoint node (cached : bool) (h : nat) (pre : list bool) (leaves : list (key * V)) (t : bt) (isroot : bool)
-      {struct h} : option (D * bt * list wr) :=
-      (* what traverseThroughCache / traverseAfterCache do for a child slot (iBatch > 0) *)
-      let child (h' : nat) (pre' : list bool) (lv : list (key * V)) (ct : bt) : option (D * bt * list wr) :=
-        match lv with
-        | [] => option_map (fun d => (d, ct, [])) (discard ct h')
-        | (k0, v0) :: rest =>
-            if cached then
-              if Nat.eqb (h' mod 4) 0 then
-                match node (Nat.ltb limit h') h' pre' lv (load (pre', h')) true with
-                | Some (d, _, w) => Some (d, set_root ct (Some (SHash d)), w)
-                | None => None
-                end
-              else node true h' pre' lv ct false
-            else
-              match h' with
-              | O =>
-                  match rest with
-                  | [] => let d := H (YLeaf v0 (pre', O)) in
-                          Some (d, set_root ct (Some (SHash d)), [WStore (pre', O) (shortcut_at empty_batch d k0 v0)])
-                  | _ => None      (* "We cannot have more than one leaf at the end of the main tree" *)
-                  end
-              | _ =>
-                  if Nat.eqb (h' mod 4) 0 then
-                    match rest with
-                    | [] =>
-                        match rslot ct with
-                        | Some _ =>
-                            match node false h' pre' lv (load (pre', h')) true with
-                            | Some (d, _, w) => Some (d, set_root ct (Some (SHash d)), w)
-                            | None => None
-                            end
-                        | None =>
-                            let d := H (YLeaf v0 (pre', h')) in
-                            Some (d, set_root ct (Some (SHash d)), [WStore (pre', h') (shortcut_at empty_batch d k0 v0)])
-                        end
-                    | _ =>
-                        match node false h' pre' lv (load (pre', h')) true with
-                        | Some (d, _, w) => Some (d, set_root ct (Some (SHash d)), w)
-                        | None => None
-                        end
-                    end
-                  else node false h' pre' lv ct false
-              end
-        end in
+    Fixpoint node (h : nat) (cached : bool) (pre : list bool) (leaves : list (key * V)) (t : bt) (isroot : bool)
+      {struct h} : option res :=
       match h, t with
       | S h', BNode s l r =>
-          let inner (lv : list (key * V)) (l0 r0 : bt) : option (D * bt * list wr) :=
-            let '(ll, lr) := split pre lv in
-            match child h' (pre ++ [false]) ll l0 with
-            | None => None
-            | Some (dl, l1, w1) =>
-                match child h' (pre ++ [true]) lr r0 with
-                | None => None
-                | Some (dr, r1, w2) =>
-                    let d := H (YNode dr dl (pre, h)) in
-                    let t3 := BNode (Some (SHash d)) l1 r1 in
-                    let wroot :=
-                      if isroot then
-                        if cached then WCache (pre, h) t3 :: (if Nat.eqb h (limit + 4) then [WTile (pre, h) t3] else [])
-                        else [WStore (pre, h) t3]
-                      else [] in
-                    (* the interpreter runs the right subtree's operations before the left one's *)
-                    Some (d, t3, w2 ++ w1 ++ wroot)
-                end
-            end in
-          if cached then inner leaves l r
+          if cached then innerf (node h') cached h' pre isroot leaves l r
           else
             (* push-down of a stored shortcut leaf first (insert_bulk.go; insert.go does it for a single leaf only,
                which is the only case it can meet) *)
@@ -177,7 +186,7 @@ Section HyperBatch.
                 let d := H (YLeaf v (pre, h)) in
                 let t1 := shortcut_at (BNode s0 l0 r0) d k v in
                 Some (d, t1, if Nat.eqb (h mod 4) 0 then [WStore (pre, h) t1] else [])
-            | _, _ => inner lv l0 r0
+            | _, _ => innerf (node h') cached h' pre isroot lv l0 r0
             end
       | _, _ => None
       end.
@@ -187,7 +196,7 @@ Section HyperBatch.
     Definition walk_insert (leaves : list (key * V)) : option (D * list wr) :=
       match leaves with
       | [] => None                                          (* indexes[0] on an empty bulk *)
-      | _ => match node (Nat.ltb limit nbits) nbits [] leaves (load ([], nbits)) true with
+      | _ => match node nbits (Nat.ltb limit nbits) [] leaves (load ([], nbits)) true with
              | Some (d, _, w) => Some (d, w)
              | None => None
              end
